@@ -1483,3 +1483,132 @@ Proof.
     destruct (holes_fill nc gc (bb ++ [jof]) T HTN W pc0 _ _ (proj1 BKW) p ra Hin) as [Hin0 HNs].
     destruct (HLW _ _ Hin0) as [_ [->|Hp]]; apply HNs; apply in_or_app; [right; left; reflexivity|left; exact Hp].
 Qed.
+
+Lemma TL_of_tloop S st st1 st' ops newc :
+  top_ok st -> csym st1 = csym st -> cbreaks st1 = cbreaks st -> AOK (solid ops) ->
+  ccode st1 = ccode st ++ encode ops -> cconsts st1 = cconsts st ++ newc ->
+  (forall nc gc, N.of_nat (List.length (cconsts st1)) <= nc -> globals_below (csym st) gc -> runs nc gc ops 0 = Some (0 + S)) ->
+  TLOOP S st1 st' -> TL st st'.
+Proof.
+  intros HT S1 B1 A C K R (T2 & M2 & B2 & new & newc2 & A2 & C2 & K2 & D2).
+  pose proof (pcof_app st st1 (solid ops)) as HP. rewrite strip_solid in HP. specialize (HP C A).
+  split; [exact T2|]. split; [rewrite <- S1; exact M2|]. exists (solid ops ++ new), (newc ++ newc2), [].
+  split; [apply aok_app; assumption|].
+  split; [rewrite C2, C, encode_strip_app, strip_solid, app_assoc; reflexivity|].
+  split; [rewrite K2, K, app_assoc; reflexivity|].
+  split; [cbn [map]; rewrite app_nil_r; congruence|]. split; [intros p []|].
+  intros nc gc Hnc Hgc.
+  assert (Hnc1 : N.of_nat (List.length (cconsts st1)) <= nc) by (rewrite K2, app_length in Hnc; lia).
+  assert (HG : globals_below (csym st) gc).
+  { intros n y HR. destruct (top_globals st HT n y HR) as [E1 E2]. split; [exact E1|]. rewrite <- S1 in E2. lia. }
+  destruct (runs_bok nc gc ops (pcof st) 0 (0 + S) (R nc gc Hnc1 HG)) as [BK1 HH1].
+  destruct (D2 nc gc Hnc Hgc) as [BK2 HH2]. rewrite HP in BK2, HH2.
+  split.
+  - eapply bok_app; [exact BK1|]. rewrite strip_solid. exact BK2.
+  - intros p ra Hin. apply (holes_app_in nc gc (solid ops) new (pcof st) _ _ _ (proj1 BK1)) in Hin.
+    rewrite HH1, strip_solid, HH2 in Hin. destruct Hin as [[]|[]].
+Qed.
+
+Lemma tl_forstep_lv n start stop step b st st' :
+  ofrag start = true -> efrag stop = true -> ofrag step = true -> slist_ctl b ->
+  compile_stmt true (SForStep (Some n) start stop step b) st = COk st' -> top_ok st -> TL st st'.
+Proof.
+  intros F1 F2 F3 HB HC HT. destruct (top_gsym st HT) as [HG HGB]. cbn [compile_stmt] in HC.
+  destruct (compile_expr true stop st) as [s1|] eqn:E1; [|discriminate]. cbn [bind] in HC.
+  destruct (compile_expr true (match step with OSome e => e | ONoneE => ENum 1 end) s1) as [s2|] eqn:E2; [|discriminate]. cbn [bind] in HC.
+  destruct (compile_expr true (match start with OSome e => e | ONoneE => ENum 0 end) s2) as [s3|] eqn:E3; [|discriminate]. cbn [bind] in HC.
+  destruct (expr_piece _ _ _ F2 E1 HGB) as (S1 & B1 & o1 & c1 & _ & A1 & C1 & K1 & R1).
+  assert (HGB1 : has_gb (csym s1)) by (rewrite S1; exact HGB).
+  destruct (expr_piece _ _ _ (ofrag_expr step 1 F3) E2 HGB1) as (S2 & B2 & o2 & c2 & _ & A2 & C2 & K2 & R2).
+  assert (HGB2 : has_gb (csym s2)) by (rewrite S2, S1; exact HGB).
+  destruct (expr_piece _ _ _ (ofrag_expr start 0 F1) E3 HGB2) as (S3 & B3 & o3 & c3 & _ & A3 & C3 & K3 & R3).
+  assert (HT3 : top_ok s3) by (unfold top_ok; rewrite S3, S2, S1; exact HT).
+  pose proof (for_loop_lv_ok StepRange 3 n b s3 st' (or_introl (conj eq_refl eq_refl)) HB HC HT3) as HL.
+  apply (TL_of_tloop 3 st s3 st' (o1 ++ o2 ++ o3) (c1 ++ c2 ++ c3) HT); try congruence.
+  - unfold solid. rewrite !map_app. apply aok_app; [exact A1|]. apply aok_app; [exact A2|exact A3].
+  - rewrite C3, C2, C1, !encode_app, <- !app_assoc. reflexivity.
+  - rewrite K3, K2, K1, <- !app_assoc. reflexivity.
+  - intros nc gc Hnc HGl.
+    assert (N1 : N.of_nat (List.length (cconsts s1)) <= nc) by (rewrite K3, K2, !app_length in Hnc; lia).
+    assert (N2 : N.of_nat (List.length (cconsts s2)) <= nc) by (rewrite K3, !app_length in Hnc; lia).
+    eapply runs_app; [apply (R1 nc gc 0 N1 HGl)|].
+    eapply runs_app; [apply (R2 nc gc (0 + 1) N2); rewrite S1; exact HGl|].
+    replace (0 + 3) with (0 + 1 + 1 + 1) by lia. apply (R3 nc gc (0 + 1 + 1) Hnc). rewrite S2, S1. exact HGl.
+Qed.
+
+Lemma tl_foriter_lv n t e b st st' :
+  (t = TStr \/ t = TArr \/ t = TMap) -> efrag e = true -> slist_ctl b ->
+  compile_stmt true (SForIter (Some n) t e b) st = COk st' -> top_ok st -> TL st st'.
+Proof.
+  intros Ht F HB HC HT. destruct (top_gsym st HT) as [HG HGB]. cbn [compile_stmt] in HC.
+  assert (HC' : compile_expr true e st >>= emit_const true (KNum 0) >>= for_loop true (Some n) IterRange 2 b = COk st')
+    by (destruct Ht as [->|[->| ->]]; exact HC). clear HC.
+  destruct (compile_expr true e st) as [s1|] eqn:E1; [|discriminate]. cbn [bind] in HC'.
+  destruct (emit_const true (KNum 0) s1) as [s2|] eqn:E2; [|discriminate]. cbn [bind] in HC'.
+  destruct (expr_piece _ _ _ F E1 HGB) as (S1 & B1 & o1 & c1 & _ & A1 & C1 & K1 & R1).
+  destruct (const_sl _ _ _ E2) as (RI & S2 & C2 & K2).
+  assert (B2 : cbreaks s2 = cbreaks s1) by (unfold emit_const in E2; apply emit_breaks in E2; exact E2).
+  assert (HT2 : top_ok s2) by (unfold top_ok; rewrite S2, S1; exact HT).
+  pose proof (for_loop_lv_ok IterRange 2 n b s2 st' (or_intror (conj eq_refl eq_refl)) HB HC' HT2) as HL.
+  apply (TL_of_tloop 2 st s2 st' (o1 ++ [(Constant, N.of_nat (List.length (cconsts s1)))]) (c1 ++ [KNum 0]) HT); try congruence.
+  - unfold solid. rewrite map_app. apply aok_app; [exact A1|]. constructor; [cbn; exact RI|constructor].
+  - rewrite C2, C1, !encode_app, <- !app_assoc. reflexivity.
+  - rewrite K2, K1, <- !app_assoc. reflexivity.
+  - intros nc gc Hnc HGl.
+    assert (N1 : N.of_nat (List.length (cconsts s1)) <= nc) by (rewrite K2, !app_length in Hnc; lia).
+    eapply runs_app; [apply (R1 nc gc 0 N1 HGl)|]. cbn [runs].
+    rewrite sop_ok_const; [f_equal; lia| |exact RI]. rewrite K2, app_length in Hnc. simpl in Hnc. lia.
+Qed.
+
+(* the program fragment with top-level loop variables *)
+Definition pfrag_stmt2 (s : stmt) : bool :=
+  match s with
+  | SDecl _ e => efrag e
+  | SForStep (Some _) start stop step b => ofrag start && efrag stop && ofrag step && cfrag_slist b
+  | SForIter (Some _) t e b => match t with TStr | TArr | TMap => efrag e && cfrag_slist b | _ => false end
+  | _ => cfrag_stmt s
+  end.
+Fixpoint pfrag2 (p : slist) : bool :=
+  match p with SNil => true | SCons s t => pfrag_stmt2 s && pfrag2 t end.
+
+Lemma pfrag2_TL p : forall st st', pfrag2 p = true -> compile_slist true p st = COk st' -> top_ok st -> TL st st'.
+Proof.
+  induction p as [|s t IH]; intros st st' HF HC HT.
+  - simpl in HC. inversion HC; subst. apply TL_refl. exact HT.
+  - cbn [pfrag2] in HF. apply andb_true_iff in HF. destruct HF as [F1 F2]. cbn [compile_slist] in HC.
+    destruct (compile_stmt true s st) as [st1|] eqn:E1; [|discriminate]. cbn [bind] in HC.
+    assert (X1 : TL st st1).
+    { destruct (top_gsym st HT) as [HG HGB].
+      destruct s; try (apply TL_of_CTL; [exact HT|]; apply (proj1 ctl_all _ F1 st st1 E1 HG HGB)).
+      - apply (TL_of_decl n e st st1 F1 HT E1).
+      - destruct lv as [n|]; [|apply TL_of_CTL; [exact HT|]; apply (proj1 ctl_all _ F1 st st1 E1 HG HGB)].
+        cbn [pfrag_stmt2] in F1. apply andb_true_iff in F1. destruct F1 as [F1 G4]. apply andb_true_iff in F1. destruct F1 as [F1 G3].
+        apply andb_true_iff in F1. destruct F1 as [G1 G2].
+        apply (tl_forstep_lv n start stop step b st st1 G1 G2 G3 (proj1 (proj2 ctl_all) b G4) E1 HT).
+      - destruct lv as [n|]; [|apply TL_of_CTL; [exact HT|]; apply (proj1 ctl_all _ F1 st st1 E1 HG HGB)].
+        cbn [pfrag_stmt2] in F1.
+        assert (Ht : t0 = TStr \/ t0 = TArr \/ t0 = TMap) by (destruct t0; try discriminate F1; auto).
+        assert (HF' : efrag e && cfrag_slist b = true) by (destruct t0; try discriminate F1; exact F1).
+        apply andb_true_iff in HF'. destruct HF' as [G1 G2].
+        apply (tl_foriter_lv n t0 e b st st1 Ht G1 (proj1 (proj2 ctl_all) b G2) E1 HT). }
+    apply (TL_trans st st1 st' X1). apply (IH st1 st' F2 HC). apply X1.
+Qed.
+
+(* compile_wf for the fragment including `for x := range …` at top level *)
+Theorem compile_wf_ctl2 : forall (p : slist) (st : cstate),
+  pfrag2 p = true -> compile p = COk st -> cbreaks st = [] ->
+  WF {| bcode := out_code (bytecode_of st); nconsts := N.of_nat (List.length (out_consts (bytecode_of st)));
+        gcount := out_gcount (bytecode_of st); lcount := out_lcount (bytecode_of st) |}.
+Proof.
+  intros p st HF HC HB. unfold compile, compile_program in HC.
+  assert (HT : top_ok cinit) by (split; [reflexivity|split; [apply inv_new|reflexivity]]).
+  destruct (pfrag2_TL p cinit st HF HC HT) as ((T1 & T2 & T3) & _ & new & newc & newb & A & C & K & B & H & D).
+  simpl in C, K, B. rewrite HB in B. assert (newb = []) by (destruct newb; [reflexivity|discriminate]). subst newb.
+  unfold bytecode_of. cbn [out_code out_consts out_gcount out_lcount]. unfold st_local_count, st_global_count.
+  rewrite T3, C.
+  destruct (D (N.of_nat (List.length (cconsts st))) (index (cur (csym st))) (N.le_refl _) (N.le_refl _)) as [BK HL].
+  change (pcof cinit) with 0 in BK, HL.
+  apply bok_WF; [exact BK|].
+  destruct (holes _ _ new 0 (AH 0)) as [|[q ra] r] eqn:EH; [reflexivity|].
+  exfalso. apply (HL q ra). left. reflexivity.
+Qed.
